@@ -410,6 +410,67 @@ func CheckCase(c Case) *ev.Violation {
 	return nil
 }
 
+// keysPerOwner replays the history and reports the largest number of distinct keys any one resolved owner received.
+func keysPerOwner(c Case) int {
+	best := 0
+	func() {
+		defer func() { recover() }()
+		t := tabular.New()
+		w := &world{t: t, w: csv.Wrap(t), table: props{}}
+		w.syncCols()
+		seen := map[string]map[int]bool{}
+		note := func(name string, k int) {
+			if seen[name] == nil {
+				seen[name] = map[int]bool{}
+			}
+			seen[name][k] = true
+			if len(seen[name]) > best {
+				best = len(seen[name])
+			}
+		}
+		// a light-weight replay: only the operations that create owners, and the set operations
+		for _, op := range c.Ops {
+			switch op.K {
+			case "set", "setnil":
+				if r, ok := w.resolve(op.Owner); ok {
+					note(r.name, mod(op.Key, len(Keys)))
+				}
+			case "setmany":
+				if r, ok := w.resolve(op.Owner); ok {
+					for k := 0; k < op.N && k < len(Keys); k++ {
+						note(r.name, mod(op.Key+k, len(Keys)))
+					}
+				}
+			case "grow":
+				n := op.N
+				if n < 0 {
+					n = 0
+				}
+				items := make([]interface{}, n)
+				for i := range items {
+					items[i] = "c"
+				}
+				t.AddRowItems(items...)
+				rows := t.AllRows()
+				cp := make([]props, n)
+				for i := range cp {
+					cp[i] = props{}
+				}
+				w.rows = append(w.rows, &rowModel{real: rows[len(rows)-1], props: props{}, cells: cp, attached: true})
+			case "handle":
+				w.syncCols()
+				n := mod(op.Col, len(w.cols))
+				w.handles = append(w.handles, struct {
+					h   tabular.PropertyOwner
+					col int
+				}{t.Column(n), n})
+			}
+			w.syncCols()
+		}
+	}()
+	return best
+}
+
 func Classify(c Case) (bool, interface{}, []string) {
 	var cl []string
 	seen := map[string]bool{}
@@ -470,6 +531,9 @@ func Classify(c Case) (bool, interface{}, []string) {
 	if grewAfterHandle {
 		copyOrHandle = true
 		add("handle-held-across-growth")
+	}
+	if !multiKey && keysPerOwner(c) >= 2 {
+		multiKey = true
 	}
 	return multiKey && copyOrHandle, nil, cl
 }
